@@ -511,10 +511,13 @@ def execute(hfactory, prefix, sched_kw):
     return s, h, bad
 
 
+ALL_DEVIATIONS = False     # when True every non-default choice counts against the bound (not only preemptions)
+
+
 def _preempt_cost(points, i):
     c = 0
     for p in points[:i]:
-        if p.choice != 0 and p.running_enabled:
+        if p.choice != 0 and (p.running_enabled or ALL_DEVIATIONS):
             c += 1
     return c
 
@@ -544,7 +547,7 @@ def explore_subtree(hfactory, prefix, bound, sched_kw, stats, max_schedules=None
             p = s.points[i]
             cost = _preempt_cost(s.points, i)
             for alt in range(1, len(p.enabled)):
-                c = cost + (1 if p.running_enabled else 0)
+                c = cost + (1 if (p.running_enabled or ALL_DEVIATIONS) else 0)
                 if c > bound:
                     continue
                 stack.append(ch[:i] + [alt])
@@ -582,7 +585,7 @@ def explore(hfactory, fargs, bound, sched_kw, procs=16, max_schedules=None, pool
     for i, p in enumerate(s.points):
         cost = _preempt_cost(s.points, i)
         for alt in range(1, len(p.enabled)):
-            c = cost + (1 if p.running_enabled else 0)
+            c = cost + (1 if (p.running_enabled or ALL_DEVIATIONS) else 0)
             if c <= bound:
                 jobs.append((hfactory, fargs, ch[:i] + [alt], bound, sched_kw, max_schedules))
     if not jobs:
